@@ -62,9 +62,9 @@ def decAtom (j : Json) : R Atom := do
   | "minLength" => return .length .min p (← fldNat j "arg")
   | "maxLength" => return .length .max p (← fldNat j "arg")
   | "exactLength" => return .length .exact p (← fldNat j "arg")
-  | "in" => return .inSet p (← strList (← fld j "vals"))
-  | "containsAll" => return .containsAll p (← strList (← fld j "vals"))
-  | "containsSome" => return .containsSome p (← strList (← fld j "vals"))
+  | "in" => return .inSet p (← if has j "vals" then strList (← fld j "vals") else pure [])   -- an empty list is omitted by the case encoder
+  | "containsAll" => return .containsAll p (← if has j "vals" then strList (← fld j "vals") else pure [])   -- an empty list is omitted by the case encoder
+  | "containsSome" => return .containsSome p (← if has j "vals" then strList (← fld j "vals") else pure [])   -- an empty list is omitted by the case encoder
   | "minInclusive" => return .numeric .ge p (← fldInt j "arg")
   | "minExclusive" => return .numeric .gt p (← fldInt j "arg")
   | "maxInclusive" => return .numeric .le p (← fldInt j "arg")
